@@ -2,32 +2,9 @@
    of C09): scripted raw servers against the real ClientChannel.EstablishSession. *)
 From Coq Require Import List Bool Arith String.
 Import ListNotations.
-From Lime Require Import Base.Res Hs.Types Hs.Client.
+From Lime Require Import Base.Res Hs.Types Hs.Client Hs.ClientBuilder.
 Open Scope string_scope.
 Open Scope list_scope.
-
-(* client configurations as descriptors (the harness builds the same Go callbacks) *)
-Inductive sel := SelNone | SelFirst | SelDefaultEnc | SelConst (s : string).
-Inductive authd := AuGuest | AuPlain1 | AuByRound.
-Record cdesc := { cd_comp : sel; cd_enc : sel; cd_auth : authd; cd_kind : tkind; cd_tls_ok : bool }.
-
-Definition sel_fun (s : sel) (l : list string) : string :=
-  match s with
-  | SelNone => "none"
-  | SelFirst => hd "none" l
-  | SelDefaultEnc => if mem "tls" l then "tls" else hd "none" l
-  | SelConst x => x
-  end.
-Definition auth_fun (a : authd) (schemes : list string) (rt : option nat) : string * nat :=
-  match a with
-  | AuGuest => ("guest", 0)
-  | AuPlain1 => ("plain", 1)
-  | AuByRound => (if String.eqb (hd "" schemes) "key" then "key" else "plain",
-                  match rt with None => 1 | Some d => d + 10 end)
-  end.
-Definition conf_of (d : cdesc) : cconf :=
-  {| cc_comp_sel := sel_fun (cd_comp d); cc_enc_sel := sel_fun (cd_enc d); cc_auth := auth_fun (cd_auth d);
-     cc_identity := 1; cc_kind := cd_kind d; cc_tls_ok := cd_tls_ok d |}.
 
 Inductive oout := ORet (s : state) | OErr | OBlocked | OPanic.
 Record cobs := {
